@@ -47,6 +47,8 @@ func (c *concComp) Exec(t []string) (extra []string, out string, eff bool) {
 		return c.sameNode(atoi("minutes"))
 	case "freshcredit":
 		return c.freshCredit(atoi("rounds"), int64(atoi("seed")))
+	case "linkrace":
+		return c.linkRace(atoi("rounds"), int64(atoi("seed")))
 	}
 	return nil, "bad-op", false
 }
@@ -387,10 +389,12 @@ func (c *concComp) gen(r *rand.Rand, idx int, emit func(string), sameNode bool) 
 		emit(fmt.Sprintf("balances workers=%d each=%d seed=%d", 2+r.Intn(7), 20+r.Intn(60), r.Intn(1000)))
 	case 1, 6:
 		emit(fmt.Sprintf("nonces workers=%d rounds=%d", 6+r.Intn(11), 300+r.Intn(300)))
-	case 2, 8:
+	case 2:
 		emit(fmt.Sprintf("pool clients=%d hosts=%d seed=%d", 1+r.Intn(4), 1+r.Intn(4), r.Intn(1000)))
 	case 4:
 		emit(fmt.Sprintf("freshcredit rounds=%d seed=%d", 400+r.Intn(400), r.Intn(1000)))
+	case 8:
+		emit(fmt.Sprintf("linkrace rounds=%d seed=%d", 100+r.Intn(100), r.Intn(1000)))
 	case 7:
 		if sameNode {
 			emit(fmt.Sprintf("samenode minutes=%d", 1+r.Intn(9)))
@@ -541,4 +545,57 @@ func (c *concComp) freshCredit(rounds int, seed int64) ([]string, string, bool) 
 	st, _ := s.Stats()
 	_ = total
 	return []string{"acked=" + strings.Join(acked, ","), "got=" + strings.Join(got, ","), "total=" + st.TotalCredit.String()}, fmt.Sprintf("ok failed=%d", failed), true
+}
+
+
+// linkRace: credits of a node race with the linking of that node to a wallet (the multi-key trial migration): every
+// acknowledged credit must end up in the balance the node spends from, and no trial balance may survive the link.
+func (c *concComp) linkRace(rounds int, seed int64) ([]string, string, bool) {
+	s := openStore(c.driver)
+	defer s.Close()
+	r := rand.New(rand.NewSource(seed))
+	var failed int64
+	var acked, got []string
+	for round := 0; round < rounds; round++ {
+		id := store.NodeID(fmt.Sprintf("l%d", round))
+		acct := store.Account(fmt.Sprintf("W%d", round))
+		s.SetNode(store.Node{ID: id})
+		s.AddNodeBalance(id, big.NewInt(100))
+		sum := big.NewInt(100)
+		var mu sync.Mutex
+		var wg sync.WaitGroup
+		start := make(chan struct{})
+		for k := 0; k < 8; k++ {
+			amt := big.NewInt(int64(1 + r.Intn(50)))
+			wg.Add(1)
+			go func() {
+				defer wg.Done()
+				<-start
+				if err := s.AddNodeBalance(id, amt); err != nil {
+					atomic.AddInt64(&failed, 1)
+					return
+				}
+				mu.Lock()
+				sum.Add(sum, amt)
+				mu.Unlock()
+			}()
+		}
+		wg.Add(1)
+		go func() {
+			defer wg.Done()
+			<-start
+			if err := s.AddAccountNode(acct, id); err != nil {
+				atomic.AddInt64(&failed, 1)
+			}
+		}()
+		close(start)
+		wg.Wait()
+		b, _ := s.GetNodeBalance(id)
+		acked = append(acked, fmt.Sprintf("%s:%s", id, sum))
+		got = append(got, fmt.Sprintf("%s:%s", id, b.Credit.String()))
+	}
+	st, _ := s.Stats()
+	// every node was linked: no trial balance may be left, and the ledger total is the sum of the balances read back
+	return []string{"acked=" + strings.Join(acked, ","), "got=" + strings.Join(got, ","), "total=" + st.TotalCredit.String(),
+		fmt.Sprintf("trials=%d", st.NumTrialBalances)}, fmt.Sprintf("ok failed=%d", failed), true
 }
